@@ -87,8 +87,26 @@ def run(tier):
                 R.disagree("validate of the marker structure", dict(marker=s, parsed=str(m)), res[:8], ["ok", str(m)] + exp[:6])
             elif res[1] != str(m):
                 R.disagree("marker text", dict(marker=s), res[1], str(m))
-    M.close(); F.close()
-    return R.finish(TRUSTED, ASSUME, RULE, "make -C coq Properties/C06.vo && coqc Properties/C06.v (Print Assumptions)")
+    M.close()
+    from props import mk_common as K
+    def judge_one(text):
+        m = impl_parse(text)
+        if m is None or MI.two_reversed_substring_leaves(text): return None
+        fr = F.one("marker_eval", text, envs)
+        if isinstance(m, Exception): return f"rejected by poetry-core ({type(m).__name__}) but well-formed for the reference" if fr[0] == "ok" else None
+        if fr[0] != "ok": return None
+        for e, ie, want in zip(envs, ienv, fr[1:]):
+            got = impl_validate(m, ie)
+            if want != "undefined" and got != want: return f"validate={got}, reference={want} (parsed as {m}) in {e}"
+        return None
+    def fresh(Rn):
+        for _ in range(400 if tier == "quick" else 4000):
+            yield MI.gen_marker(rng, depth=2)[0]
+    try:
+        return R.finish(TRUSTED, ASSUME, RULE, "make -C coq Properties/C06.vo && coqc Properties/C06.v (Print Assumptions)",
+                        search=K.make_marker_search(judge_one=judge_one, fresh=fresh))
+    finally:
+        F.close()
 
 def replay(rep):
     c = rep["case"]; F = common.Ref()
